@@ -69,6 +69,34 @@ fn check_range(c: &GCase, obs: &mut Obs) -> CheckResult {
     if v != wantf.iter().map(|x| Some(*x)).collect::<Vec<_>>() {
         return fail("range<Option<f64>>", format!("{} x {} as Option<f64> = {:?}", desc, sc, v));
     }
+    // wide integers: spans beyond 2^53, where a count taken through f64 loses the partial last step
+    {
+        let sh = 50 + 3 * c.scale as u32 + (c.omit as u32 % 3); // 2^50 .. 2^58
+        let big = 1i128 << sh;
+        let r = (c.n as i128 % 3) - 1;
+        let (a, b, st) = (c.start as i128 * big, c.end as i128 * big + r, c.step as i128 * big);
+        let mut wantw: Vec<i128> = vec![];
+        let mut v = a;
+        while (st > 0 && v < b) || (st < 0 && v > b) {
+            wantw.push(v);
+            v += st;
+        }
+        let fits = |x: i128| x > i64::MIN as i128 && x < i64::MAX as i128;
+        // (the span itself must be representable in the element type: the library computes end - start)
+        if fits(a) && fits(b) && fits(st) && fits(b - a) && wantw.iter().all(|x| fits(*x + st)) {
+            let got: Vec<i64> = Vec1Create::range(Some(a as i64), b as i64, Some(st as i64));
+            if got.iter().map(|x| *x as i128).collect::<Vec<_>>() != wantw {
+                return fail(format!("range<i64>:wide:{}", if got.len() != wantw.len() { "count" } else { "content" }), format!("range({}, {}, {}) as i64 = {:?}, arithmetic progression is {:?}", a, b, st, got, wantw));
+            }
+            if a >= 0 && b >= 0 && st > 0 {
+                let got: Vec<u64> = Vec1Create::range(Some(a as u64), b as u64, Some(st as u64));
+                if got.iter().map(|x| *x as i128).collect::<Vec<_>>() != wantw {
+                    return fail("range<u64>:wide", format!("range({}, {}, {}) as u64 = {:?}, arithmetic progression is {:?}", a, b, st, got, wantw));
+                }
+            }
+            obs.class("wide_integer_range");
+        }
+    }
     // omitted start (0) / omitted step (1)
     if c.omit % 2 == 0 && c.end >= 0 {
         let v: Vec<i32> = Vec1Create::range(None, c.end, None);
